@@ -33,14 +33,19 @@ func (self *Interpreter) importItem(node ast.AnalyzedImport) *value.Interrupt {
 	_, moduleFound := self.sourceModules[node.FromModule.Ident()]
 
 	if moduleFound {
-		// visit the module so that the root scope is populated
-		if i := self.execModule(node.FromModule.Ident(), true); i != nil {
-			return i
+		// visit the module so that the root scope is populated (once: every further import statement that
+		// names the module sees the same, already initialised globals)
+		if _, executed := self.modules[node.FromModule.Ident()]; !executed {
+			if i := self.execModule(node.FromModule.Ident(), true); i != nil {
+				return i
+			}
 		}
 
 		for _, importItem := range node.ToImport {
+			// The importer shares the item with its defining module (like on the VM): an imported global is
+			// the module's global, not a copy of its value at the time of the import.
 			val := self.modules[node.FromModule.Ident()].scopes[0][importItem.Ident.Ident()]
-			self.addVar(importItem.Ident.Ident(), *val)
+			self.currentModule.scopes[len(self.currentModule.scopes)-1][importItem.Ident.Ident()] = val
 		}
 
 		return nil
